@@ -273,7 +273,7 @@ def csv_roundtrip(prop, tier, seed):
     cells_by_policy = {
         'simple': ['', 'a', '"', 'a b', '"x"'],
         'quoted': ['', 'a', '"', ',', 'a,b', '"x"', ' a ', 'a""b', ' "q" '],
-        'quoted_rfc': ['', 'a', '"', ',', 'a\nb', 'x\r\ny', '\r', '"\n"', ' a '],
+        'quoted_rfc': ['', 'a', '"', ',', 'a\nb', 'x\r\ny', '\r', '"\n"', ' a ', 'a\n\ufeffb'],
         'whitespace': ['a', '"', 'a,b', '"x"'],
         'monocolumn': ['', 'a', 'a b', '"x",y'],
     }
@@ -316,6 +316,19 @@ def csv_roundtrip(prop, tier, seed):
                     break
             if len(fails) >= 5:
                 break
+    # the same round trip through the utf-8 codec (BOM handling is encoding specific): BOM characters anywhere but the table start
+    for policy, d, table in (('quoted_rfc', ',', [['a\n\ufeffb']]), ('quoted_rfc', ',', [['x', 'p\n\ufeff'], ['\ufeffy', 'z']]), ('quoted', ',', [['a', '\ufeffb'], ['\ufeffc', 'd']]),
+                             ('simple', '\t', [['a', 'b'], ['\ufeffc', 'd']]), ('quoted_rfc', ';', [['a\r\n\ufeff\nb', 'c']])):
+        for sep in ('\n', '\r\n'):
+            n += 1
+            try:
+                data, ww = write_table(table, d, policy, sep, encoding='utf-8')
+                recs, hdr, rw = read_table(data, d, policy, encoding='utf-8')
+            except Exception as e:
+                recs, ww, rw = repr(e), [], []
+            exp = [[f.replace('\r\n', '\n').replace('\r', '\n') for f in r] for r in table] if policy == 'quoted_rfc' else table
+            if recs != exp or ww or rw:
+                fails.append({'replay': 'none', 'key': 'rt-utf8:%s:%r:%r' % (policy, sep, table), 'table': table, 'd': d, 'policy': policy, 'sep': sep, 'expected': exp, 'observed': recs, 'warnings': [ww, rw]})
     # lossy output is never silent
     for policy, d in (('simple', ','), ('simple', '\t'), ('whitespace', ' ')):
         for rec in (['a' + d + 'b'], ['x', 'a' + d + 'b'], [d], ['a' + d + 'b', ''], ['', 'x' + d + 'y', 'z']):
